@@ -1,6 +1,111 @@
 import Driver.Util
-open Lean
+import DoitModel.Model.Load
+open Lean DoitModel.Load
 namespace Driver.Load
-/-- handler for requests with `"model": "load"` (stub: filled in when the model exists) -/
-def handle (_ : Json) : Json := Driver.err "model not implemented"
+/-! requests `{"model":"load","cmds":[str],"creators":[{"name":str,"line":n,"result":R}]}`
+    R = {"k":"dict","d":D} | {"k":"gen","items":[G]} | {"k":"task","t":T} | {"k":"none"} | {"k":"other"}
+    G = {"k":"dict","d":D,"nf":str,"bf":str} | {"k":"task","t":T} | {"k":"other"} | {"k":"nested","items":[G]}
+    D = [[attr, V]];  V = ["none"] | ["bool",b] | ["int",n] | ["float",halves] | ["str",s] | ["list",[s]] | ["tuple",[s]]
+        | ["dict",[[key, task|null]]] | ["callable"] | ["object"]
+    T = {"name","task_dep","wild_dep","setup","calc_dep","targets","file_dep","subtask_of":s|null,"has_subtask":b}
+    answer `{"load":O,"control":O}` with O = {"out":"tasks","tasks":[T]} | {"out":"invalidTask"|"invalidDodo"} |
+    {"out":"crash","exn":"TypeError"|"AttributeError"}, plus "tidy": the decidable hypothesis `Tidy cs` of wellformed_groups_partial; at control level every T also has "pre" (task_dep before the
+    implicit ones) and "implicit". -/
+
+abbrev NM := DoitModel.Load.Name
+instance : Inhabited Gen := ⟨.leaf .other⟩
+
+def toName (s : String) : NM := s.toList.map Char.toNat
+def ofName (n : NM) : String := String.ofList (n.map Char.ofNat)
+def jname (j : Json) (k : String) : NM := toName (jstr j k)
+def jnames (j : Json) (k : String) : List NM := (jstrs j k).map toName
+def namesJ (xs : List NM) : Json := ofStrs (xs.map ofName)
+
+def parseAttr : String → Attr
+  | "basename" => .basename | "name" => .name | "actions" => .actions | "file_dep" => .file_dep
+  | "task_dep" => .task_dep | "uptodate" => .uptodate | "calc_dep" => .calc_dep | "targets" => .targets
+  | "setup" => .setup | "clean" => .clean | "teardown" => .teardown | "doc" => .doc | "params" => .params
+  | "pos_arg" => .pos_arg | "verbosity" => .verbosity | "io" => .io | "getargs" => .getargs | "title" => .title
+  | "watch" => .watch | "meta" => .meta_ | _ => .unknown
+
+def strsOf (j : Json) : List NM := (asArr j).map fun x => toName (asStr x)
+
+def parseVal (j : Json) : RawVal :=
+  match asArr j with
+  | [tag] => match asStr tag with
+    | "none" => .none | "callable" => .callable | _ => .object
+  | [tag, v] => match asStr tag with
+    | "bool" => .bool ((v.getBool?).toOption.getD false)
+    | "int" => .int ((v.getInt?).toOption.getD 0)
+    | "float" => .float ((v.getInt?).toOption.getD 0)
+    | "str" => .str (toName (asStr v))
+    | "list" => .list (strsOf v)
+    | "tuple" => .tuple (strsOf v)
+    | "dict" => .dict ((asArr v).map fun e => match asArr e with
+        | [k, t] => (toName (asStr k), match t with | .str s => some (toName s) | _ => none)
+        | _ => ([], none))
+    | _ => .object
+  | _ => .object
+
+def parseDict (j : Json) : TDict :=
+  (asArr j).map fun p => match asArr p with
+    | [a, v] => (parseAttr (asStr a), parseVal v)
+    | _ => (.unknown, .object)
+
+def parseTask (j : Json) : Task :=
+  { name := jname j "name", taskDep := jnames j "task_dep", wildDep := jnames j "wild_dep",
+    setupTasks := jnames j "setup", calcDep := jnames j "calc_dep", targets := jnames j "targets",
+    fileDep := jnames j "file_dep",
+    subtaskOf := match jobj j "subtask_of" with | .str s => some (toName s) | _ => none,
+    hasSubtask := jbool j "has_subtask" }
+
+partial def parseGen (j : Json) : Gen :=
+  match jstr j "k" with
+  | "dict" => .leaf (.dict (parseDict (jobj j "d")) (jname j "nf") (jname j "bf"))
+  | "task" => .leaf (.task (parseTask (jobj j "t")))
+  | "nested" => .nested ((jarr j "items").map parseGen)
+  | _ => .leaf .other
+
+def parseResult (j : Json) : Result :=
+  match jstr j "k" with
+  | "dict" => .dict (parseDict (jobj j "d"))
+  | "gen" => .gen ((jarr j "items").map parseGen)
+  | "task" => .task (parseTask (jobj j "t"))
+  | "none" => .none
+  | _ => .other
+
+def parseCreator (j : Json) : Creator :=
+  { name := jname j "name", line := jnat j "line", result := parseResult (jobj j "result") }
+
+def taskJ (t : Task) (extra : List (String × Json)) : Json :=
+  Json.mkObj ([("name", Json.str (ofName t.name)), ("task_dep", namesJ t.taskDep), ("wild_dep", namesJ t.wildDep),
+    ("setup", namesJ t.setupTasks), ("calc_dep", namesJ t.calcDep), ("targets", namesJ t.targets),
+    ("file_dep", namesJ t.fileDep),
+    ("subtask_of", match t.subtaskOf with | some b => Json.str (ofName b) | none => Json.null),
+    ("has_subtask", Json.bool t.hasSubtask)] ++ extra)
+
+def errJ : Err → Json
+  | .invalidTask => Json.mkObj [("out", "invalidTask")]
+  | .invalidDodo => Json.mkObj [("out", "invalidDodo")]
+  | .crash .typeError => Json.mkObj [("out", "crash"), ("exn", "TypeError")]
+  | .crash .attributeError => Json.mkObj [("out", "crash"), ("exn", "AttributeError")]
+
+def handle (j : Json) : Json :=
+  let cmds := jnames j "cmds"
+  let cs := (jarr j "creators").map parseCreator
+  let hyp : List (String × Json) := [("tidy", Json.bool (Tidy cs))]
+  match loadTasks cmds cs with
+  | .error e => Json.mkObj ([("load", errJ e), ("control", errJ e)] ++ hyp)
+  | .ok ts =>
+    let lj := Json.mkObj [("out", "tasks"), ("tasks", mkArr (ts.map fun t => taskJ t []))]
+    let names := ts.map (·.name)
+    let ts1 := ts.map (expandWild names)
+    match control ts with
+    | .error e => Json.mkObj ([("load", lj), ("control", errJ e)] ++ hyp)
+    | .ok ts2 =>
+      let pre := ts1.map (·.taskDep)
+      let outs := (ts2.zip pre).map fun (t, p) =>
+        taskJ t [("pre", namesJ p), ("implicit", namesJ (t.taskDep.drop p.length))]
+      Json.mkObj ([("load", lj), ("control", Json.mkObj [("out", "tasks"), ("tasks", mkArr outs)])] ++ hyp)
+
 end Driver.Load
